@@ -25,14 +25,17 @@ impl<T> Gc<T> { pub uninterp spec fn id(&self) -> int; }
 pub struct Root<T> { p: core::marker::PhantomData<T> }
 impl<T> Root<T> {
     pub uninterp spec fn id(&self) -> int;
+    pub uninterp spec fn gc(&self) -> Gc<T>;
     #[verifier::external_body]
-    pub fn as_gc(&self) -> (g: Gc<T>) ensures g.id() == self.id() { unimplemented!() }
+    pub fn as_gc(&self) -> (g: Gc<T>) ensures g.id() == self.id(), g == self.gc() { unimplemented!() }
 }
 pub struct RefCell<T> { pub v: T }
 pub struct ObjString { }
 pub struct ObjClass { }
 pub struct ObjFunction { }
 pub struct ObjClosure { }
+// object.rs ObjClosure.module: the module whose globals the closure's code sees
+pub uninterp spec fn closure_module(c: Gc<ObjClosure>) -> Gc<RefCell<ObjModule>>;
 // a module's globals: std HashMap<Gc<ObjString>, Value> by contract, keyed by the name string's cell identity (C11)
 pub struct AttrMap { pub ghost view: Map<int, Value> }
 impl AttrMap {
@@ -115,6 +118,7 @@ pub struct Vm {
     pub ghost loader_result: Option<ErrorKind>,   // None: the loader finds source text; Some(k): it fails with kind k
     pub ghost compiles: bool,
     pub ghost body_starts: nat,           // closure calls made on behalf of imports
+    pub ghost seeded: Set<int>,           // module cells whose table has been given the built-ins (init_built_in_globals)
 }
 
 impl Vm {
@@ -122,7 +126,7 @@ impl Vm {
     pub open spec fn wf(&self) -> bool {
         forall|k: int| self.modules.view.dom().contains(k) ==> self.mods.dom().contains(#[trigger] self.modules.view[k].id())
     }
-    pub open spec fn same_registry(&self, o: &Vm) -> bool { self.modules == o.modules && self.mods == o.mods && self.runs == o.runs && self.body_starts == o.body_starts && self.active_module == o.active_module }
+    pub open spec fn same_registry(&self, o: &Vm) -> bool { self.modules == o.modules && self.mods == o.mods && self.runs == o.runs && self.body_starts == o.body_starts && self.active_module == o.active_module && self.seeded == o.seeded }
     pub open spec fn same_env(&self, o: &Vm) -> bool { self.next_path == o.next_path && self.loader_result == o.loader_result && self.compiles == o.compiles }
     pub open spec fn runs_of(&self, k: int) -> nat { if self.runs.dom().contains(k) { self.runs[k] } else { 0 } }
 
@@ -160,7 +164,7 @@ impl Vm {
     //@  requires old(self).wf()
     //@  ensures final(self).wf(), final(self).runs == old(self).runs, final(self).stack == old(self).stack, final(self).raised == old(self).raised, final(self).body_starts == old(self).body_starts, old(self).same_env(final(self))
     //@  ensures @every_import_yields_the_same_module_object old(self).modules.view.dom().contains(Vm::intern_id(path@)) ==> r.id() == old(self).modules.view[Vm::intern_id(path@)].id() && final(self).modules == old(self).modules && final(self).mods == old(self).mods
-    //@  ensures @new_module_registered_once !old(self).modules.view.dom().contains(Vm::intern_id(path@)) ==> !old(self).mods.dom().contains(r.id()) && final(self).modules.view.dom() == old(self).modules.view.dom().insert(Vm::intern_id(path@)) && final(self).modules.view[Vm::intern_id(path@)].id() == r.id() && final(self).mods[r.id()].imported == false && (forall|k: int| old(self).modules.view.dom().contains(k) ==> final(self).modules.view[k] == old(self).modules.view[k]) && (forall|i: int| old(self).mods.dom().contains(i) ==> final(self).mods.dom().contains(i) && final(self).mods[i] == old(self).mods[i])
+    //@  ensures @new_module_registered_once !old(self).modules.view.dom().contains(Vm::intern_id(path@)) ==> !old(self).mods.dom().contains(r.id()) && final(self).modules.view.dom() == old(self).modules.view.dom().insert(Vm::intern_id(path@)) && final(self).modules.view[Vm::intern_id(path@)].id() == r.id() && final(self).mods[r.id()].imported == false && final(self).mods[r.id()].path.id() == Vm::intern_id(path@) && (forall|k: int| old(self).modules.view.dom().contains(k) ==> final(self).modules.view[k] == old(self).modules.view[k]) && (forall|i: int| old(self).mods.dom().contains(i) ==> final(self).mods.dom().contains(i) && final(self).mods[i] == old(self).mods[i])
     //@end
 
     // ---- the rest of the VM as far as imports go (assumed contracts)
@@ -197,18 +201,27 @@ impl Vm {
     { unimplemented!() }
     #[verifier::external_body]
     fn new_root_obj_closure(&mut self, function: Gc<ObjFunction>, module: Gc<RefCell<ObjModule>>) -> (r: Root<ObjClosure>)
-        ensures old(self).same_registry(final(self)), old(self).same_env(final(self)), final(self).stack == old(self).stack, final(self).raised == old(self).raised
+        ensures closure_module(r.gc()) == module, old(self).same_registry(final(self)), old(self).same_env(final(self)), final(self).stack == old(self).stack, final(self).raised == old(self).raised
     { unimplemented!() }
     // starting the module body (a closure call); whatever it does later happens in the interpreter loop, not here
     #[verifier::external_body]
     fn call_value(&mut self, value: Value, arg_count: usize) -> (r: Result<(), Error>)
-        ensures final(self).modules == old(self).modules, final(self).mods == old(self).mods, final(self).body_starts == old(self).body_starts + 1, final(self).raised == old(self).raised, old(self).same_env(final(self))
+        ensures final(self).modules == old(self).modules, final(self).mods == old(self).mods, final(self).body_starts == old(self).body_starts + 1, final(self).raised == old(self).raised, old(self).same_env(final(self)), final(self).seeded == old(self).seeded, final(self).stack == old(self).stack,
+            // calling a closure makes its frame the innermost one and the interpreter's cached view that frame's: the
+            // active namespace is the closure's module (units calls / exc: call_closure, load_frame)
+            (r is Ok && value is ObjClosure) ==> final(self).active_module == closure_module(value->ObjClosure_0),
+    { unimplemented!() }
+    // `self.active_module.borrow().path`
+    #[verifier::external_body]
+    fn active_module_path(&self) -> (r: Gc<ObjString>)
+        requires self.mods.dom().contains(self.active_module.id())
+        ensures r == self.mods[self.active_module.id()].path
     { unimplemented!() }
     #[verifier::external_body]
-    fn active_module_path(&self) -> Gc<ObjString> { unimplemented!() }
-    #[verifier::external_body]
     fn init_built_in_globals(&mut self, module_path: &Gc<ObjString>)
-        ensures final(self).modules == old(self).modules, final(self).body_starts == old(self).body_starts, final(self).raised == old(self).raised, old(self).same_env(final(self)),
+        ensures old(self).modules.view.dom().contains(module_path.id()) ==> final(self).seeded == old(self).seeded.insert(old(self).modules.view[module_path.id()].id()),
+            final(self).stack == old(self).stack, final(self).active_module == old(self).active_module, final(self).runs == old(self).runs,
+            final(self).modules == old(self).modules, final(self).body_starts == old(self).body_starts, final(self).raised == old(self).raised, old(self).same_env(final(self)),
             forall|i: int| old(self).mods.dom().contains(i) ==> final(self).mods.dom().contains(i) && final(self).mods[i].imported == old(self).mods[i].imported,
     { unimplemented!() }
     // converts the error into an exception object and unwinds to the importing statement's handler (units errors, exc)
@@ -240,6 +253,7 @@ impl Vm {
     //@  ensures @module_not_found_is_reported (!old(self).registered(old(self).next_path) && old(self).loader_result is Some) ==> final(self).raised == old(self).loader_result && final(self).body_starts == old(self).body_starts && final(self).modules == old(self).modules && final(self).mods == old(self).mods
     //@  ensures @module_that_fails_to_compile_is_import_error_and_not_registered (!old(self).registered(old(self).next_path) && old(self).loader_result is None && !old(self).compiles) ==> final(self).raised == Some(ErrorKind::ImportError) && final(self).body_starts == old(self).body_starts && final(self).modules == old(self).modules && final(self).mods == old(self).mods
     //@  ensures @first_import_registers_and_starts_the_body_once (!old(self).registered(old(self).next_path) && old(self).loader_result is None && old(self).compiles) ==> final(self).body_starts == old(self).body_starts + 1 && final(self).registered(old(self).next_path) && !final(self).content_of(old(self).next_path).imported && final(self).raised == old(self).raised
+    //@  ensures @a_freshly_imported_module_is_given_the_built_ins_before_its_body_runs (!old(self).registered(old(self).next_path) && old(self).loader_result is None && old(self).compiles && r is Ok) ==> final(self).seeded.contains(final(self).modules.view[old(self).next_path].id())
     //@end
 
     // FinishImport (emitted after the module body's call returns): the module object below the body's result is
